@@ -2,7 +2,7 @@
 """Writes /verif/MANIFEST.json (one source for the per-property texts)."""
 import json, os
 ROOT = os.path.dirname(os.path.dirname(os.path.abspath(__file__)))
-TECH = "TLA+ spec model-checked with TLC; every edge of the model's state graph replayed on the real code; recorded executions validated by TLC against the client-level observer spec"
+TECH = "TLA+ spec model-checked with TLC; every edge of the model's state graph replayed on the real code; recorded executions (drifting paths, random and mass / boundary histories, shuttle-scheduled multi-threaded runs logged per critical section) validated by TLC against the client-level observer spec, with TLC choosing the linearization point of calls that span several critical sections"
 P = {
  "C01": ("Mutex, Semaphore, Event, Timer, Mpmc, Oneshot, StateBroadcast (+ *Obs, *ObsTrace)",
          "QueueOK holds in every reachable model state of all seven primitive specs; every edge of the tour configs is replayed on all lock/ownership flavours with the hook-exported wait queue (mapped from node addresses of quarantined, never re-used memory) compared after each step; any panic outside poll-after-completion, any queue entry that is not a live waiting future, any duplicate or inconsistent back-link is reported by the observer invariant C01 on the recorded execution.",
@@ -16,12 +16,12 @@ P = {
  "C08": ("Mpmc.tla / MpmcObs.tla", "Exactly-once accounting of uniquely tagged, drop-logging payloads (oIn ledger: every id is handed in once and leaves once: received, handed back, or dropped with future/buffer/channel); capacities 0,1,2; borrowed, shared, array-, fixed- and growing-heap backed channels, streams, cancel().", "§5 C08"),
  "C09": ("Mpmc.tla / MpmcObs.tla", "Observer = abstract bounded FIFO over the order in which sends took effect; receive returns the head; a send completes only when stored (position <= capacity) or taken; rendezvous for capacity 0.", "§5 C09"),
  "C10": ("Mpmc.tla / MpmcObs.tla", "Invariant C10 (value available and receivers pending => one holds a wake-up; accepted pending sender holds one; after close all do); notified-receiver drop forwards; model checked sequentially and with independent wake delivery (conc configs).", "§5 C10"),
- "C11": ("Mpmc.tla, Oneshot.tla, StateBroadcast.tla (+Obs)", "close() result, post-close send/receive results, and the hook-observed closed flag after every handle clone/drop compared with the observer's handle ledger for all shared flavours. Found D3 on the pinned tree (fixed).", "§5 C11"),
+ "C11": ("Mpmc.tla, Oneshot.tla, StateBroadcast.tla (+Obs)", "close() result, post-close send/receive results, and the hook-observed closed flag after every handle clone/drop compared with the observer's handle ledger for all shared flavours; once closed every pending future has been woken; last-handle drops as separately scheduled steps (SplitDrop configs, threaded runs with the handle counters as scheduling points). Found D3 on the pinned tree (fixed).", "§5 C11"),
  "C12": ("Oneshot.tla / OneshotObs.tla", "Single value accepted; single-consumer: exactly one Some; broadcast: every receive yields the value; pending receivers woken at send/close.", "§5 C12"),
  "C13": ("StateBroadcast.tla / StateObs.tla", "Observer does not assume how ids are numbered: ids strictly increase with publications, receive completes only with the latest state and only if newer than the id passed in; pending receivers woken by the next send/close.", "§5 C13"),
  "C14": ("Event.tla / EventObs.tla", "A wait completes iff the event is set at a poll or was set since the first poll (latched across reset); set wakes all pending through latest wakers; reset wakes nobody.", "§5 C14"),
  "C15": ("Timer.tla (+PairingHeapOps.tla) / TimerObs.tla", "Never early, nothing due missed, deadline order of wakes, exact next_expiration, saturating delay; the model contains the pairing heap link by link so every heap shape reachable with k timers is replayed and compared.", "§5 C15"),
- "C16": ("ThreadSafety.tla", "Ownership / thread-transfer model over the Send/Sync/Unpin facts rustc derives for every public type x witness (observed by harness `probe`); TLC enumerates all programs of <= 5 moves/shares/API calls over two threads. Found D2/D4 (fixed) and D5 (known finding, printed as KNOWN-FINDING).", "§5 C16"),
+ "C16": ("ThreadSafety.tla", "Ownership / thread-transfer model over the Send/Sync/Unpin facts rustc derives for every public type x witness (observed by harness `probe`); witnesses: four lock types (Send/Sync in all combinations), four payload types, two buffer types; TLC enumerates all programs of <= 5 moves/shares/clones/API calls over two threads. Found D2/D4/D6 (fixed) and D5 (known finding, printed as KNOWN-FINDING).", "§5 C16"),
  "C17": ("all seven primitive specs (+Obs)", "is_terminated() of every live future/stream is compared with the observer's completed-set after every replayed step of every tour; poll after completion must panic; stream items equal receive results, None forever after termination.", "§5 C17"),
  "C18": ("all primitive and container specs (+Obs)", "Counting global allocator armed only inside library calls; the recorded alloc count of every step must be 0 (exempt: push on the growing heap buffer; destruction of the primitive). TLC supplies the exhaustive set of histories and evaluates the constraint on the traces; it has nothing to say about the allocator itself.", "§5 C18"),
  "C19": ("RingBuf.tla / RingObs.tla", "ArrayBuf index arithmetic (wrap-around, capacity 0) modelled; all push/pop/query/drop sequences to a fixpoint for capacities 0..4; replayed on ArrayBuf, FixedHeapBuf, GrowingHeapBuf with drop-logging elements.", "§5 C19"),
@@ -56,7 +56,7 @@ m = {
               "kind_free_text": "explicit TLA+ specifications (spec/*.tla) checked with TLC; spec->code: every edge of the state graph replayed on the real primitives by harness/fih; code->spec: recorded executions validated by TLC against the observer specs"}],
  "checks": checks,
  "not_applicable": [],
- "notes": "See DESIGN.md. known_findings.json lists repaired defects (fixed:) and one recorded finding (C16, D5).",
+ "notes": "See DESIGN.md. known_findings.json lists repaired defects (fixed: D1a, D1b, D2, D3, D4, D6) and one recorded finding (C16, D5). The atomics hook 2ab12bc adds a cfg attribute line above three existing `use` lines (the lines themselves are unchanged).",
 }
 json.dump(m, open(os.path.join(ROOT, "MANIFEST.json"), "w"), indent=1)
 print("wrote MANIFEST.json with", len(checks), "checks")
